@@ -702,6 +702,37 @@ def sx_format_spec(val, spec):
     return _mkstr(out)
 
 
+def sx_pow(base, exp, mod=None):
+    """pow(): exact on concrete arguments and for small concrete exponents; modular exponentiation of a symbolic base
+    with concrete exponent and modulus is an uninterpreted function of the base with values in [0, mod) (a deterministic
+    function -- nothing else is assumed, so code that re-implements field arithmetic is explored but not decided)"""
+    if not is_sym(base) and not is_sym(exp) and not is_sym(mod):
+        return pow(base, exp) if mod is None else pow(base, exp, mod)
+    if isinstance(exp, SxInt) or isinstance(mod, SxInt) or not isinstance(base, SxInt):
+        raise Unsupported("pow with a symbolic exponent or modulus")
+    if mod is None:
+        if isinstance(exp, int) and 0 <= exp <= 8:
+            r = 1
+            for _ in range(exp):
+                r = r * base
+            return r
+        raise Unsupported("pow of a symbolic base with a large exponent")
+    if not isinstance(mod, int) or mod <= 0 or not isinstance(exp, int):
+        raise Unsupported("pow variant")
+    if 0 <= exp <= 3:
+        r = 1
+        for _ in range(exp):
+            r = (r * base) % mod
+        return r % mod
+    core.CTX.incomplete.append("modular exponentiation of a symbolic base abstracted as an uninterpreted function")
+    w = max(mod.bit_length(), 1)
+    f = z3.Function("POWMOD_%x_%x" % (exp & 0xffffffff, mod & 0xffffffff), z3.IntSort(), z3.IntSort())
+    b = base.to_int_mode()
+    v = f(b.e)
+    core.CTX.add(v >= 0, v < mod)
+    return SxInt(v, 0, mod - 1)
+
+
 def sx_round(x, nd=None):
     if isinstance(x, SxFloat):
         return x.__round__(nd)
@@ -885,6 +916,7 @@ def _install_builtin_intercepts():
     register(math.ceil, lambda x: x.__ceil__() if isinstance(x, SxFloat) else (x if isinstance(x, SxInt) else math.ceil(x)))
     register(math.trunc, lambda x: x.trunc() if isinstance(x, SxFloat) else (x if isinstance(x, SxInt) else math.trunc(x)))
     register(round, sx_round)
+    register(pow, sx_pow)
     register(float, sx_float)
 
 
